@@ -212,6 +212,10 @@ def _mk():
     add("ovl_nearest", "{m}.map_overlap(uf.ov_sum3, {0}, depth={{0: 1}}, boundary='nearest', dtype={0}.dtype)", "uf.np_ov_sum3({0}, 'nearest')", exact=False, cond=NE + " and a0.dtype.kind=='f'", fam="window")
     add("ovl_const", "{m}.map_overlap(uf.ov_sum3, {0}, depth={{0: 1}}, boundary=0.0, dtype={0}.dtype)", "uf.np_ov_sum3({0}, 0.0)", exact=False, cond=NE + " and a0.dtype.kind=='f'", fam="window")
 
+    add("ovl_periodic_d2", "{m}.map_overlap(uf.ov_sumd, {0}, depth={{0: 2}}, boundary='periodic', dtype={0}.dtype, d=2)", "uf.np_ov_sumd({0}, 2, 'periodic')", exact=False, cond="a0.ndim>=1 and a0.shape[0]>=2 and a0.dtype.kind=='f'", fam="window")
+    add("ovl_reflect_d2", "{m}.map_overlap(uf.ov_sumd, {0}, depth={{0: 2}}, boundary='reflect', dtype={0}.dtype, d=2)", "uf.np_ov_sumd({0}, 2, 'reflect')", exact=False, cond="a0.ndim>=1 and a0.shape[0]>=2 and a0.dtype.kind=='f'", fam="window")
+    add("ovl_none_d1", "{m}.map_overlap(uf.ov_sumd, {0}, depth={{0: 1}}, boundary='none', dtype={0}.dtype, d=1)", "uf.np_ov_sumd({0}, 1, 'none')", exact=False, cond=NE + " and a0.dtype.kind=='f'", fam="window")
+
     # ---- map_blocks
     add("mb_double", "{m}.map_blocks(uf.ub_double, {0}, dtype={0}.dtype)", "uf.ub_double({0})", cond="a0.dtype!=bool", fam="mapblocks")
     add("mb_neg", "{0}.map_blocks(uf.ub_neg)", "uf.ub_neg({0})", cond="a0.dtype!=bool", fam="mapblocks")
@@ -230,6 +234,17 @@ def _mk():
     add("searchsorted", "{m}.searchsorted({m}.sort({0}) if '{m}'=='np' else {0}, {0}[:2] + 0.5)", cond="False", fam="routine", rewrite=False)
     add("digitize", "{m}.digitize({0}, np.array([11.0, 13.0]))", fam="routine", rewrite=False)
     add("average_w", "{m}.average({0}, axis=0, weights={0})", exact=False, cond=NE + " and a0.size>0", fam="red", rewrite=False)
+
+    # ---- in-place style operations (setitem, out=, where=) as pure functions
+    add("set_sl", "uf.set_slice({m}, {0}, slice(1, 3), -1.0)", cond=NE + " and a0.dtype.kind=='f'", fam="inplace", rewrite=False)
+    add("set_step", "uf.set_slice({m}, {0}, slice(None, None, 2), -2.0)", cond=NE + " and a0.dtype.kind=='f'", fam="inplace", rewrite=False)
+    add("set_int", "uf.set_slice({m}, {0}, -1, 7.0)", cond=NE + " and a0.dtype.kind=='f'", fam="inplace", rewrite=False)
+    add("set_list", "uf.set_slice({m}, {0}, [0, -1], 5.0)", cond=NE + " and a0.dtype.kind=='f'", fam="inplace", rewrite=False)
+    add("set_mask", "uf.set_slice({m}, {0}, {0} > 12, 0.0)", cond=NE + " and a0.dtype.kind=='f' and a0.ndim==1", fam="inplace", rewrite=False)
+    add("set_masked", "uf.set_masked({m}, {0}, slice(1, 3))", cond=NE + " and a0.dtype.kind=='f'", fam="inplace", rewrite=False)
+    add("add_where_out", "uf.add_where_out({m}, {0})", cond="a0.dtype.kind=='f'", fam="inplace", rewrite=False)
+    add("add_where_out_self", "uf.add_where_out_self({m}, {0})", cond="a0.dtype.kind=='f'", fam="inplace", rewrite=False)
+    add("sin_out_self", "uf.sin_out_self({m}, {0})", exact=False, cond="a0.dtype.kind=='f'", fam="inplace", rewrite=False)
 
     # ---- binary ops over two pool members
     add("b_add", "{0} + {1}", arity=2, fam="bin")
